@@ -1,1 +1,239 @@
-/- C20: property theorems (not yet built). -/
+/- C20 — Formatting is idempotent and never crashes.   (weak partial: see checks/props/C20.py)
+
+   Proved here, for all inputs:
+   * the diagnostic branch of `format` (error-range arithmetic translated from the source +
+     hi-doc's bound assertion) never panics and always yields the diagnostic;
+   * `jrsonnet-fmt`'s convergence loop makes at most `conv_limit + 1` format calls, with
+     `--conv-limit > 0` it can only finish on a fixed point, and `--test` accepts exactly the
+     texts that one pass reproduces — in particular whatever `jrsonnet-fmt` printed, PROVIDED the
+     layout engine is stable on it (`ft (z ++ "\n") = some z`).  That hypothesis — the layout fixed
+     point itself — is NOT proved anywhere; it is only observed by the harness. -/
+import JrsVerif.Model.FmtDiag
+
+namespace JrsVerif.FmtDiag
+open JrsVerif.Generated.FmtRange
+
+/-- C20.1 the range arithmetic itself never fails, for ANY start/end/len -/
+theorem errorRange_never_panics (s e len : Nat) : errorAnnotationRange s e len ≠ .panic := by
+  unfold errorAnnotationRange checkedSub
+  split <;> simp
+
+/-- C20.1 (DESIGN `errorRange_total`): on a non-empty input every error gets an inclusive range
+    `a ..= b` that is ordered and inside the text — the bound hi-doc asserts. -/
+theorem errorRange_total (s e len : Nat) (hl : 0 < len) :
+    ∃ a b, errorAnnotationRange s e len = .ok (some (a, b)) ∧ a ≤ b ∧ b < len := by
+  unfold errorAnnotationRange checkedSub satSub
+  have h1 : 1 ≤ len := hl
+  simp only [h1, if_true]
+  refine ⟨_, _, rfl, ?_, ?_⟩
+  · exact Nat.min_le_right _ _
+  · exact Nat.lt_of_le_of_lt (Nat.min_le_right _ _) (by omega)
+
+/-- a non-empty error extent `s .. e` is annotated exactly (`s ..= e-1`) -/
+theorem errorRange_covers (s e len : Nat) (h : s < e) (h2 : e ≤ len) :
+    errorAnnotationRange s e len = .ok (some (s, e - 1)) := by
+  unfold errorAnnotationRange checkedSub satSub
+  have h1 : 1 ≤ len := by omega
+  simp only [h1, if_true]
+  have a : Nat.max (e - 1) s = e - 1 := Nat.max_eq_left (by omega)
+  have b : Nat.min (e - 1) (len - 1) = e - 1 := Nat.min_eq_left (by omega)
+  have c : Nat.min s (e - 1) = s := Nat.min_eq_left (by omega)
+  rw [a, b, c]
+
+/-- a zero-width error (missing token) inside the text points at the byte it stands before -/
+theorem errorRange_point (s len : Nat) (h : s < len) :
+    errorAnnotationRange s s len = .ok (some (s, s)) := by
+  unfold errorAnnotationRange checkedSub satSub
+  have h1 : 1 ≤ len := by omega
+  simp only [h1, if_true]
+  have a : Nat.max (s - 1) s = s := Nat.max_eq_right (by omega)
+  have b : Nat.min s (len - 1) = s := Nat.min_eq_left (by omega)
+  have c : Nat.min s s = s := Nat.min_eq_left (Nat.le_refl s)
+  rw [a, b, c]
+
+/-- a zero-width error at the end of input (every truncated program) is attached to the last byte
+    (before the repair this range was `len ..= len` and hi-doc panicked) -/
+theorem errorRange_at_end (len : Nat) (h : 0 < len) :
+    errorAnnotationRange len len len = .ok (some (len - 1, len - 1)) := by
+  unfold errorAnnotationRange checkedSub satSub
+  have h1 : 1 ≤ len := h
+  simp only [h1, if_true]
+  have a : Nat.max (len - 1) len = len := Nat.max_eq_right (by omega)
+  have b : Nat.min len (len - 1) = len - 1 := Nat.min_eq_right (by omega)
+  rw [a, b, b]
+
+/-- the empty input (`jrsonnet-fmt -e ''`, formerly `0 - 1` underflow) has no range to annotate -/
+theorem errorRange_empty_input (s e : Nat) : errorAnnotationRange s e 0 = .ok none := by
+  unfold errorAnnotationRange checkedSub; simp
+
+theorem annotate_never_panics (len : Nat) (err : Nat × Nat) : annotate len err ≠ .panic := by
+  unfold annotate
+  cases hl : len with
+  | zero => rw [errorRange_empty_input]; simp
+  | succ n =>
+    obtain ⟨a, b, h, _, hb⟩ := errorRange_total err.1 err.2 (n + 1) (by omega)
+    rw [h]; simp [hiDocAccepts, hb]
+
+/-- C20.1 the error branch of `format` reports a diagnostic for every error list and input
+    length: none of `usize - 1`, `RangeInclusive`, hi-doc's `out of bounds annotation` is reached -/
+theorem format_meets_spec (len : Nat) (errs : List (Nat × Nat)) :
+    format len errs = formatSpec errs := by
+  unfold format formatSpec
+  split
+  · rfl
+  · induction errs with
+    | nil => rfl
+    | cons e es ih =>
+      unfold annotateAll
+      have h := annotate_never_panics len e
+      have ih' : annotateAll len es = .diag := by
+        cases es with
+        | nil => rfl
+        | cons e' es' => exact ih (by simp)
+      cases ha : annotate len e <;> simp_all
+
+theorem format_never_panics (len : Nat) (errs : List (Nat × Nat)) : format len errs ≠ .panic := by
+  rw [format_meets_spec]; unfold formatSpec; split <;> simp
+
+/-- non-vacuity: the three inputs that crashed before the repair -/
+example : format 0 [(0, 0)] = .diag ∧ format 2 [(0, 0), (1, 2)] = .diag ∧ format 5 [(5, 5)] = .diag := by
+  decide
+
+end JrsVerif.FmtDiag
+
+namespace JrsVerif.FmtMain
+
+theorem loop_calls_le (ft : Text → Option Text) (limit : Nat) (x : Text) (it : Nat) :
+    (loop ft limit x it).2 ≤ limit - it + 1 := by
+  fun_induction loop ft limit x it with
+  | case1 => omega
+  | case2 => omega
+  | case3 => omega
+  | case4 => omega
+  | case5 formatted iteration tmp _ _ _ hlt r ih =>
+    have : ¬ limit < iteration + 1 := hlt
+    show (loop ft limit tmp (iteration + 1)).2 + 1 ≤ limit - iteration + 1
+    omega
+
+/-- C20.3 `run_limit_terminates`: `main_result`'s loop is a total function (structural in
+    `conv_limit - iteration`) and calls `format` at most `conv_limit + 1` times -/
+theorem run_limit_terminates (ft : Text → Option Text) (limit : Nat) (x : Text) :
+    (loop ft limit x 0).2 ≤ limit + 1 := by
+  have := loop_calls_le ft limit x 0; omega
+
+/-- without `--conv-limit` exactly one pass is made and its (trimmed) result is the output -/
+theorem limit0_single_pass (ft : Text → Option Text) (x : Text) :
+    loop ft 0 x 0 = (match ft x with | none => .parseError | some t => .done t, 1) := by
+  unfold loop
+  cases h : ft x with
+  | none => rfl
+  | some t =>
+    simp only []
+    by_cases hx : (x == t) = true
+    · have : x = t := by simpa using hx
+      subst this; simp
+    · simp [hx]
+
+/-- with `--conv-limit n`, n > 0, the loop only finishes on a fixed point of format∘trim
+    (otherwise it ends in the `formatting not converged` assertion or a parse error) -/
+theorem loop_done_fixpoint (ft : Text → Option Text) (limit : Nat) (hl : 0 < limit) (x : Text)
+    (it : Nat) (f : Text) (h : (loop ft limit x it).1 = .done f) : ft f = some f := by
+  fun_induction loop ft limit x it with
+  | case1 => simp at h
+  | case2 formatted iteration tmp hft heq =>
+    have e : formatted = tmp := by simpa using heq
+    simp only [Outcome.done.injEq] at h
+    subst h; rw [hft, e]
+  | case3 formatted iteration tmp hft hne hz =>
+    have : limit = 0 := by simpa using hz
+    omega
+  | case4 => simp at h
+  | case5 formatted iteration tmp hft hne hz hlt r ih => exact ih h
+
+theorem snoc_ne (z : Text) : (z ++ ['\n'] == z) = false := by
+  have : z ++ ['\n'] ≠ z := by
+    intro h
+    have := congrArg List.length h
+    simp at this
+  simpa using this
+
+/-- C20.3 `test_accepts_fixpoint`: if one more pass over the produced file `z ++ "\n"` gives `z`
+    again (layout stable; with `--conv-limit > 0` also on `z` itself), `--test` accepts it,
+    exit code 0, whatever the conv-limit.  The hypothesis is the layout fixed point — observed by
+    the harness, not proved. -/
+theorem test_accepts_fixpoint (ft : Text → Option Text) (limit : Nat) (z : Text)
+    (h1 : ft (z ++ ['\n']) = some z) (h2 : limit = 0 ∨ ft z = some z) :
+    main ft limit true (z ++ ['\n']) = ⟨0, z ++ ['\n']⟩ := by
+  have hl : (loop ft limit (z ++ ['\n']) 0).1 = .done z := by
+    unfold loop
+    simp only [h1, snoc_ne]
+    by_cases hz : limit = 0
+    · simp [hz]
+    · have hf : ft z = some z := by cases h2 with | inl h => exact absurd h hz | inr h => exact h
+      have hlt : ¬ limit < 0 + 1 := by omega
+      have hz' : (limit == 0) = false := by simpa using hz
+      simp only [hz', hlt]
+      unfold loop
+      simp [hf]
+  unfold main
+  rw [hl]
+  simp
+
+/-- what plain `jrsonnet-fmt` prints always ends in exactly one appended newline -/
+theorem main_output_shape (ft : Text → Option Text) (limit : Nat) (test : Bool) (x y : Text)
+    (h : main ft limit test x = ⟨0, y⟩) : ∃ z, (loop ft limit x 0).1 = .done z ∧ y = z ++ ['\n'] := by
+  unfold main at h
+  cases hl : (loop ft limit x 0).1 with
+  | parseError => rw [hl] at h; simp at h
+  | notConverged => rw [hl] at h; simp at h
+  | done z =>
+    rw [hl] at h
+    refine ⟨z, rfl, ?_⟩
+    simp only [] at h
+    split at h
+    · simp at h
+    · simpa using h.symm
+
+/-- C20 statement, last clause: "`jrsonnet-fmt --test` accepts what `jrsonnet-fmt` produced" —
+    reduced to the stability of the layout on the produced text. -/
+theorem produce_then_test_accepts (ft : Text → Option Text) (l l' : Nat) (x y : Text)
+    (h : main ft l false x = ⟨0, y⟩)
+    (stable : ∀ z, y = z ++ ['\n'] → ft y = some z ∧ (l' = 0 ∨ ft z = some z)) :
+    main ft l' true y = ⟨0, y⟩ := by
+  obtain ⟨z, _, hy⟩ := main_output_shape ft l false x y h
+  obtain ⟨s1, s2⟩ := stable z hy
+  subst hy
+  exact test_accepts_fixpoint ft l' z s1 s2
+
+/-- exact characterisation of `--test` without conv-limit: accepted iff one pass over the input
+    returns the input minus its final newline (so a formatted file lacking the trailing newline is
+    rejected, and so is any text the layout changes) -/
+theorem test_accepts_iff (ft : Text → Option Text) (i : Text) :
+    (main ft 0 true i).code = 0 ↔ ∃ z, ft i = some z ∧ z ++ ['\n'] = i := by
+  unfold main
+  rw [limit0_single_pass]
+  cases h : ft i with
+  | none => simp
+  | some t =>
+    simp only [Option.some.injEq, exists_eq_left']
+    by_cases e : t ++ ['\n'] = i
+    · simp [e]
+    · simp [e]
+
+/-- a parse error is exit code 1 with nothing printed, in every mode -/
+theorem parse_error_exit (ft : Text → Option Text) (limit : Nat) (test : Bool) (x : Text)
+    (h : ft x = none) : main ft limit test x = ⟨1, []⟩ := by
+  unfold main loop; simp [h]
+
+/-- non-vacuity for `test_accepts_fixpoint` / `produce_then_test_accepts`: a formatter that strips
+    blanks is stable, its output is accepted; an unstable one (appends a char each pass) hits the
+    conv-limit assertion -/
+example :
+    let ft : Text → Option Text := fun t => some (t.filter (fun c => c != ' ' && c != '\n'))
+    main ft 0 false ['a', ' ', 'b', '\n'] = ⟨0, ['a', 'b', '\n']⟩ ∧
+    main ft 3 true ['a', 'b', '\n'] = ⟨0, ['a', 'b', '\n']⟩ ∧
+    main ft 0 true ['a', ' ', 'b', '\n'] = ⟨1, []⟩ ∧
+    main (fun t => some (t ++ ['x'])) 2 false [] = ⟨101, []⟩ := by
+  refine ⟨?_, ?_, ?_, ?_⟩ <;> simp [main, loop]
+
+end JrsVerif.FmtMain
